@@ -3,13 +3,15 @@
 answers are evaluated inside Coq with vm_compute, and the two answers are compared.  This takes extraction, the
 OCaml compiler and the driver's glue out of the trusted base for the requests it covers.
 
-  tools/vmroute.py <C13|C14|C15|C18|C19> [max_cases]      exit 0 = all agree, 1 = a difference (printed), 2 = could not run
+  tools/vmroute.py <C13|C14|C15|C18|C19|C20> [max_cases]      exit 0 = all agree, 1 = a difference (printed), 2 = could not run
 
 Covered request kinds (the codecs, whose results are plain lists of numbers):
   C14  enc <set> <bytes>   -> encode, pe_display          dec <bytes> -> decode, utf8_lossy (decode)
   C13  enc <cfg> <scalars> -> encode                      dec <cfg> <bytes> -> decode
   C15  parse <bytes>       -> parse (pairs, flattened)    byteser <bytes> -> bser      serpairs n:v ... -> serialize_pairs
   C18  dec <bytes>         -> decode_to_vec (ok part)     spec <bytes> -> forgiving_base64_decode
+  C20  path <dbg> <p>      -> from_file_path / from_directory_path (outcome kind, serialization), to_file_path of each
+       pathjoin / patheq / name
   C19  parse <s> <q>       -> Mime parse (outcome kind; type, subtype, parameters flattened; Display; get_parameter q)
 Requests come from corpus/<Cxx>/cases.txt (lines of those kinds) plus a fixed built-in list, so the run is
 deterministic.  Called by tools/orchestrate.py in the thorough tier; a difference is reported as a broken tie.
@@ -23,7 +25,7 @@ ROOT = os.path.dirname(os.path.dirname(os.path.abspath(__file__)))
 COQ = os.path.join(ROOT, "coq")
 OUT = os.path.join(ROOT, "build", "vmroute")
 
-DRIVER = {"C13": "c13_driver", "C14": "c14_driver", "C15": "c15_driver", "C18": "c18_driver", "C19": "c19_driver"}
+DRIVER = {"C13": "c13_driver", "C14": "c14_driver", "C15": "c15_driver", "C18": "c18_driver", "C19": "c19_driver", "C20": "c20_driver"}
 IMPORTS = {
     "C13": "From RU Require Import Base.Prelude Base.Utf8 Base.U32_c13 Gen.Tables Model.Punycode.",
     "C14": "From RU Require Import Base.Prelude Base.Utf8 Model.AsciiSet Gen.Tables Model.PercentEncoding.",
@@ -31,6 +33,11 @@ IMPORTS = {
            "Definition flat_pairs (l : list (list N * list N)) : list N :=\n"
            "  flat_map (fun p => N.of_nat (length (fst p)) :: fst p ++ N.of_nat (length (snd p)) :: snd p) l.",
     "C18": "From RU Require Import Base.Prelude Gen.Tables Model.Base64 Spec.Infra.",
+    "C20": "From RU Require Import Base.Prelude Base.Utf8 Model.AsciiSet Gen.Tables Model.PercentEncoding Model.HostT Model.UrlRecord Model.Parser Model.FilePath.\n"
+           "Definition fk {A} (r : fres A) : N := match r with FOk _ => 0 | FErr => 1 | FPanic => 2 end.\n"
+           "Definition fser (r : fres url) : option (list N) := match r with FOk u => Some (ser u) | _ => None end.\n"
+           "Definition fto (d : bool) (r : fres url) : option (list N) :=\n"
+           "  match r with FOk u => match to_file_path d u with FOk p => Some (0 :: p) | FErr => Some [1] | FPanic => Some [2] end | _ => None end.",
     "C19": "From RU Require Import Base.Prelude Base.Utf8 Gen.Tables Model.Mime.\n"
            "Definition flat_mime (m : mime) : list N :=\n"
            "  N.of_nat (length (m_type m)) :: m_type m ++ N.of_nat (length (m_subtype m)) :: m_subtype m ++\n"
@@ -72,6 +79,16 @@ def builtin(prop):
         r.append("serpairs -:-")
         r.append("serpairs %s:- -:%s" % (hexl(t("*-._~")), hexl(t(" \n%"))))
         return r
+    if prop == "C20":
+        r = []
+        for p in ["/", "/a/b", "/a/../b/./c", "rel/x", "", "/a b/%41?#", "/caf\u00e9/\U0001f600", "//x//y/", "/C:/x", "/a/b/", "/\xff\xfe"]:
+            b = list(p.encode("utf-8")) if "\xff" not in p else [0x2f, 0xff, 0xfe]
+            for d in "01":
+                r.append("path %s %s" % (d, hexl(b)))
+            r.append("pathjoin %s %s" % (hexl(b), hexl(t("x/y"))))
+            r.append("patheq %s %s" % (hexl(b), hexl(t("/a/b"))))
+            r.append("name %s" % hexl(b))
+        return r
     if prop == "C19":
         r = []
         for p in ["", "text/plain", "text/plain;charset=utf-8", "a/b;x=\"a;\\\";c\"", " Text/HTML ; Charset=\"UTF-8\" ", "a/b;x=1;x=2;;y", "a/b;x=\"a\\", "/b", "a/", "a/b/c",
@@ -109,6 +126,20 @@ def generated(prop, n=300):
             else:
                 al = [0x61, 0x7a, 0x41, 0x30, 0x39, 0x2d, 0x21, 0x6b, 0x80]
                 r.append("dec %d %s" % (rnd(2), hexl([al[rnd(len(al))] for _ in range(ln)])))
+        elif prop == "C20":
+            al = [0x2f, 0x2f, 0x2e, 0x61, 0x43, 0x3a, 0x7c, 0x20, 0x25, 0x3f, 0x23, 0x5c, 0xc3, 0xa9, 0xff, 0x00, 0x7a]
+            b = [al[rnd(len(al))] for _ in range(ln)]
+            if rnd(4):
+                b = [0x2f] + b
+            k = rnd(5)
+            if k <= 1:
+                r.append("path %d %s" % (k, hexl(b)))
+            elif k == 2:
+                r.append("pathjoin %s %s" % (hexl(b), hexl([al[rnd(len(al))] for _ in range(rnd(6))])))
+            elif k == 3:
+                r.append("patheq %s %s" % (hexl(b), hexl([0x2f] + [al[rnd(len(al))] for _ in range(rnd(6))])))
+            else:
+                r.append("name %s" % hexl(b))
         elif prop == "C19":
             al = [0x61, 0x2f, 0x3b, 0x3d, 0x22, 0x5c, 0x20, 0x09, 0x78, 0x41, 0x31, 0x2c, 0xe9, 0x100, 0x7f, 0x0a]
             b = [al[rnd(len(al))] for _ in range(ln + rnd(10))]
@@ -199,6 +230,45 @@ def terms(prop, w):
         def ext(f):
             return ("some", parse_l(f[0][2:])) if f[0].startswith("f:") else ("none", None)
         return [("serialize_pairs", term, ext)]
+    if prop == "C20" and w[0] == "path" and len(w) == 3:
+        d = "true" if w[1] == "1" else "false"
+        b = coq_list(parse_l(w[2]))
+
+        def part(f, i):
+            return " ".join(f).split(" | ")[i]
+
+        def kind(i):
+            return lambda f: ("some", [{"ok": 0, "err": 1, "panic": 2}[part(f, i).split(" ")[0]]])
+
+        def serx(i):
+            def g(f):
+                x = part(f, i)
+                return ("some", parse_l(x[3:].split(",")[0])) if x.startswith("ok ") else ("none", None)
+            return g
+
+        def tox(i):
+            def g(f):
+                x = part(f, i)
+                if x == "-":
+                    return ("none", None)
+                if x.startswith("ok "):
+                    return ("some", [0] + parse_l(x[3:]))
+                return ("some", [{"err": 1, "panic": 2}[x]])
+            return g
+        return [("from_file_path-kind", "Some [fk (from_file_path %s)]" % b, kind(0)),
+                ("from_file_path", "fser (from_file_path %s)" % b, serx(0)),
+                ("from_directory_path-kind", "Some [fk (from_directory_path %s)]" % b, kind(1)),
+                ("from_directory_path", "fser (from_directory_path %s)" % b, serx(1)),
+                ("to_file_path(file)", "fto %s (from_file_path %s)" % (d, b), tox(2)),
+                ("to_file_path(dir)", "fto %s (from_directory_path %s)" % (d, b), tox(3))]
+    if prop == "C20" and w[0] == "pathjoin" and len(w) == 3:
+        return [("path_join", "Some (path_join %s %s)" % (coq_list(parse_l(w[1])), coq_list(parse_l(w[2]))), lambda f: ("some", parse_l(f[0])))]
+    if prop == "C20" and w[0] == "patheq" and len(w) == 3:
+        return [("path_eq", "Some [if path_eq %s %s then 1 else 0]%%N" % (coq_list(parse_l(w[1])), coq_list(parse_l(w[2]))), lambda f: ("some", [int(f[0])]))]
+    if prop == "C20" and w[0] == "name" and len(w) == 2:
+        b = coq_list(parse_l(w[1]))
+        return [("name_reference", "Some (name_reference %s)" % b, lambda f: ("some", parse_l(f[0]))),
+                ("plain_name", "Some [if plain_name %s then 1 else 0; if simple_name %s then 1 else 0]%%N" % (b, b), lambda f: ("some", [int(f[1]), int(f[2])]))]
     if prop == "C19" and w[0] == "parse" and len(w) == 3:
         b, q = coq_list(parse_l(w[1])), coq_list(parse_l(w[2]))
         kind = ("Some [match parse %s with Ok None => 0 | Ok (Some m) => match display m with Ok _ => 1 | Panic _ => 4 | OutOfFuel => 5 end "
